@@ -109,7 +109,9 @@ func (tdStoreStream) Generate(rng *rand.Rand, n int, thorough bool) []Case {
 			case 7, 8, 9:
 				base := []string{testdirectory.DefaultUserDN, "OU=PEOPLE,DC=EXAMPLE,DC=ORG", testdirectory.DefaultGroupDN, "dc=example,dc=org", dn}[rng.Intn(5)]
 				var filter string
-				switch rng.Intn(6) {
+				switch rng.Intn(7) {
+				case 6:
+					filter = "(objectClass=*)"
 				case 0:
 					filter = "(" + dn + ")"
 				case 1:
